@@ -82,7 +82,7 @@ impl From<&SvgElement> for ElementMatch {
 }
 
 #[derive(Debug, Default, Clone)]
-struct Scope {
+pub struct Scope {
     vars: HashMap<String, String>,
     defaults: Vec<(ElementMatch, SvgElement)>,
 }
@@ -379,6 +379,19 @@ impl TransformerContext {
         scope.vars.insert(name.into(), value.into());
         #[cfg(feature = "verif")]
         crate::verif::set_var(name, self.scope_stack.len());
+    }
+
+    /// The variables and defaults in force right now (see `swap_environment`).
+    pub fn environment(&self) -> Vec<Scope> {
+        self.scope_stack.clone()
+    }
+
+    /// Put a saved environment in force, returning the one it replaces.
+    ///
+    /// An element deferred by a forward reference is re-evaluated after its later
+    /// siblings; it must see the variables as they were at its place in the document.
+    pub fn swap_environment(&mut self, env: Vec<Scope>) -> Vec<Scope> {
+        std::mem::replace(&mut self.scope_stack, env)
     }
 
     pub fn push_element(&mut self, el: &SvgElement) {
